@@ -67,6 +67,11 @@ CHECKS = {
   note="Trusts ref/bitw layouts (ISO/IEC 14496-3 Table 1.15, 13818-7 6.2) and Go's == on the decoded structs; canonical SBR/PS flags only.",
   technique="runtime monitor: exhaustive differential execution against a reference bit-layout model",
   design_ref="DESIGN.md §3 C18"),
+ "C20": dict(
+  text="Sanitizer + shadow-result monitor: the check binary is built with -race; each case is a concurrent round of G in {4,16,64} goroutines (GOMAXPROCS 2/8/16) looping over 19 operation kinds (decode both paths/lazy, box decode, Info, Encode/EncodeSW, GetFullSamples, table queries, encrypt, decrypt, parameter-set/slice/SEI parsing, Annex B conversions, UpdateSidx, Fragmentify) on 51 shared read-only buffers; observers: race detector reports (GORACE logs, de-duplicated), every result compared with the digest computed by fresh single-goroutine reference processes in three orders, SHA-256 canaries on the shared buffers, and a cold lockstep round for lazy initialisation. Evidence lists the operation-kind pairs seen overlapping.",
+  note="Decided for the schedules the Go scheduler produced under the listed settings; race detector shadow memory is bounded (witness reads mitigate); in-place documented operations run on private copies only; a deliberate harness race self-tests that reports are collected.",
+  technique="race detector (go build -race) over a concurrent stress workload plus shadow-result and canary monitors",
+  design_ref="DESIGN.md §3 C20"),
 }
 
 NOT_YET = "monitor not built yet in this round (design in DESIGN.md); will be claimed once its check is silent on the unchanged tree"
